@@ -3,6 +3,7 @@
 (*   fork      : k (packets expanded before the save), equal ("T"/"F"/exception name)              *)
 (*   pair      : a, b  observations of the original and of the restored copy after the same calls  *)
 (*   interrupt : handed, expanded, verified  (a search interrupted by its time limit and resumed)  *)
+(*   slicing   : full, resumed  (how the uninterrupted search and the interrupted-and-resumed one end) *)
 EXTENDS Resume, Json, IOUtils
 Traces == ndJsonDeserialize(IOEnv.TRACE_FILE)
 VARIABLES t, l
@@ -10,6 +11,7 @@ vars == <<t, l>>
 Clause(e) == CASE e.op = "fork" -> ForkClause(e)
                [] e.op = "pair" -> PairClause(e.a, e.b)
                [] e.op = "interrupt" -> InterruptClause(e)
+               [] e.op = "slicing" -> SlicingClause(e)
                [] OTHER -> "UnknownEvent"
 Init == t = 1 /\ l = 1 /\ TLCSet(1, 0)
 Step == /\ t <= Len(Traces) /\ l <= Len(Traces[t].events)
